@@ -21,6 +21,7 @@ func init() {
 		Assumptions: []string{"encoding/json yields nil for JSON null and absent keys, and does not recover panics of custom UnmarshalJSON methods", "httprouter recovers panics in HTTP handlers (500), worker goroutines have no recover"},
 	}
 	reg("C18.sum", "SHAPE", "Add methods sum every numeric field into the same field; Paused OR-ed; node lists appended", 25, c18sum)
+	reg("C18.union", "PATH", "TopicStats.Add merges every channel of the added node: summed into the like-named one or appended", 1, c18union)
 	reg("C18.fanin", "SHAPE+LOCK", "sibling contract of the seven Get* fan-ins", 40, c18fanin)
 	reg("C18.partial", "ETYPE+PATH", "PartialErr => warning/merge, anything else => 502/total error", 25, c18partial)
 	reg("C18.index", "GUARD", "indices into decoded slices on unrecovered goroutines are in range", 1, c18index)
@@ -96,6 +97,76 @@ func c18sum(c *an.Ctx) {
 			}
 		}
 		c.Check(okN, fn, tn+".NodeStats keeps the per-node entry", fn.Pos(), "", tn+".Add does not append the node's stats to NodeStats")
+	}
+}
+
+// c18union: TopicStats.Add merges the added node's channels: each one is either added into the like-named
+// channel already present or appended. Decided per iteration of the loop over a.Channels.
+func c18union(c *an.Ctx) {
+	fn := c.Fn("internal/clusterinfo", "(*TopicStats).Add")
+	cadd := c.Fn("internal/clusterinfo", "(*ChannelStats).Add")
+	chF := c.P.Field("internal/clusterinfo", "TopicStats", "Channels")
+	nameF := c.P.Field("internal/clusterinfo", "ChannelStats", "ChannelName")
+	if fn == nil || cadd == nil || chF == nil || nameF == nil {
+		return
+	}
+	var outer *an.IndexLoop
+	for _, l := range an.NaturalLoops(fn) {
+		il, ok := an.AsIndexLoop(l)
+		if !ok || il.Slice == nil {
+			continue
+		}
+		if f, base := an.LoadedField(an.Strip(il.Slice)); f == chF && isParam(base, fn, 1) {
+			outer = il
+		}
+	}
+	if outer == nil {
+		c.Bad(fn, "channels of the added node are merged", fn.Pos(), "TopicStats.Add does not range over a.Channels", nil)
+		return
+	}
+	elems := outer.Elems()
+	onlyEx, _ := outer.OnlyExhaustionExit()
+	q := &an.PathQ{Fn: fn, StartEdges: []an.Edge{{From: outer.Header, To: outer.Body}}, AllConsts: true,
+		SinkEdge: func(e an.Edge, _ *an.PathState) bool { return e.To == outer.Header },
+		Cut: func(in ssa.Instruction, _ *an.PathState) bool {
+			if isCallToOn(in, cadd, nil) {
+				ci := in.(ssa.CallInstruction)
+				if !valueIn(arg(ci, 0), elems) {
+					return false
+				}
+				// under ChannelName equality between the element and the receiver
+				for _, cmp := range an.CmpsAt(in.Block()) {
+					if cmp.Op != token.EQL {
+						continue
+					}
+					lf, lb := an.LoadedField(an.Strip(cmp.X))
+					rf, rb := an.LoadedField(an.Strip(cmp.Y))
+					if lf == nameF && rf == nameF && ((valueIn(lb, elems) && an.SameValue(rb, recvArg(ci))) || (valueIn(rb, elems) && an.SameValue(lb, recvArg(ci)))) {
+						return true
+					}
+				}
+				return false
+			}
+			if st, ok := in.(*ssa.Store); ok {
+				if fa, ok := st.Addr.(*ssa.FieldAddr); ok && an.FieldOf(fa) == chF && isParam(fa.X, fn, 0) {
+					if call, ok := an.Strip(st.Val).(*ssa.Call); ok {
+						if _, isApp := isBuiltinCall(call, "append"); isApp && len(call.Call.Args) == 2 {
+							for _, e := range appendedElems(call.Call.Args[1]) {
+								if valueIn(e, elems) {
+									return true
+								}
+							}
+						}
+					}
+				}
+			}
+			return false
+		}}
+	w, skip := q.Find()
+	if skip || !onlyEx || !outer.WholeOK {
+		c.Bad(fn, "channels of the added node are merged", fn.Pos(), "an iteration over a.Channels can finish without either adding the channel into the like-named one or appending it (e.g. a found-flag that is not reset per channel): a channel that only some nodes have disappears from the merged topic view", w)
+	} else {
+		c.OK(fn, "channels of the added node are merged", fn.Pos(), "")
 	}
 }
 
